@@ -27,6 +27,29 @@ CLAIMED = {
    note="Trusted: TLC, the term encoding, build.py (description -> PipeFunc). Keywords shadowed by a bound value are a stated "
         "don't-care. Known finding F31 (arg_combinations lists unused sibling outputs).",
    technique="TLA+ spec of call semantics checked by TLC; universe export + replay into Pipeline; TLC trace validation"),
+ "C01": dict(
+   category="model_checking", design_ref="6 C01",
+   text="The MapSpec denotation is written in TLA+ (MapDenote.tla); TLC checks its laws (valid, shape product rule, every "
+        "position filled by a distinct element, invocation count = external index space) on every member of a TLA+-defined "
+        "universe of mapped pipelines (axis arrangements incl. ':'/zip/outer product, every output axis order, internal axis "
+        "at every position, tuple outputs, generators, consumers, all axis sizes) and exports it; every case and seeded "
+        "random pipelines (1-4 functions, rank<=3) are run through the real Pipeline.map on dict/file/shared-memory storage "
+        "with list and ndarray inputs; TLC validates each recorded run against MapRun/MapDenote (TraceMapRun): the sliced "
+        "kwargs of every invocation, exactly-once, inputs-complete, Result.output and load_outputs equal to the denotation.",
+   note="Trusted: TLC, term/JSON encoding, build.py, pmap.py. Values are opaque terms (no dtype coercion). zarr absent. "
+        "Bounds: rank<=3, sizes<=3 (universe sizes<=2).",
+   technique="TLA+ denotation + run state machine; TLC universe export; TLC trace validation of real map runs"),
+ "C03": dict(
+   category="model_checking", design_ref="6 C03",
+   text="TLC explores every interleaving of task start/completion (MC_MapRun over MapRun.tla) for 5-10 scenarios with up to "
+        "MaxConc concurrent tasks, checking ExactlyOnce, InputsComplete, DoneStored, and prints every complete behaviour as "
+        "a schedule script; a controllable Executor (gated threads) passed as executor= realises each script on the real "
+        "code for dict/file/shared-memory and per-output storage mixes via map and map_async; the recorded order must equal "
+        "the script and TLC validates each recorded run (results and reloaded outputs equal the denotation). Real thread and "
+        "process pools (incl. per-output executors) with seeded delays are sampled and validated the same way.",
+   note="Exact schedule control only for the thread-based controllable executor; real pools are sampled; SLURM executors "
+        "not exercised. Events are ordered by the gate lock / an O_APPEND log, never by wall clock.",
+   technique="TLC-enumerated schedules replayed through a controllable executor; TLC trace validation"),
 }
 NOT_YET = "check not built yet in this round (specification module planned in DESIGN.md section 6)"
 
